@@ -224,6 +224,30 @@ func nilEdgeFilter(e ssa.Value, wantNil bool) func(*ssa.BasicBlock, int) bool {
 	}
 }
 
+// nilEdgeFilterR is nilEdgeFilter for path enumeration with phi resolution: a test of a variable that holds e on
+// this path counts as a test of e, and a test of a variable that holds the constant nil can only take its nil edge.
+func nilEdgeFilterR(e ssa.Value, wantNil bool) func(*ssa.BasicBlock, int, func(ssa.Value) ssa.Value) bool {
+	return func(b *ssa.BasicBlock, si int, resolve func(ssa.Value) ssa.Value) bool {
+		cond, truth, ok := core.IfEdge(b, si)
+		if !ok {
+			return true
+		}
+		v, eqNil, ok := core.NilCompare(cond)
+		if !ok {
+			return true
+		}
+		isNilOnEdge := (eqNil == truth)
+		rv := resolve(v)
+		if rv == e || v == e {
+			return isNilOnEdge == wantNil
+		}
+		if c, isConst := rv.(*ssa.Const); isConst && c.Value == nil {
+			return isNilOnEdge
+		}
+		return true
+	}
+}
+
 // isAtomicOn reports whether ins is a call sync/atomic.<fn>(&X.<field>, ...) and returns fn and field name.
 func isAtomicOn(ins ssa.Instruction) (fn string, field *types.Var, ok bool) {
 	c, isCall := ins.(ssa.CallInstruction)
